@@ -18,7 +18,7 @@ binding: mode A, three parts
    (iii) transform.compute_xyz_from_tth_eta on every forward record must return the integer pixel, and
          compute_tth_eta of the returned pixel the angles (rays lying in the detector plane are skipped)
 """
-import os, json, time
+import json, time
 import numpy as np
 import common
 import c01_geometry as G
@@ -27,10 +27,17 @@ PROP = "C02"
 WORKERS = 16
 
 
+REPLAYING = None
+
+
 def report(chk, J, kind, payload, par):
     if J.problems:
-        chk.violation("%s [%d disagreeing outputs; parameters %s]" % (J.problems[0], len(J.problems), json.dumps(par, sort_keys=True)),
-                      dict(payload, kind=kind, problems=J.problems[:20]))
+        what = "%s [%d disagreeing outputs; parameters %s]" % (J.problems[0], len(J.problems), json.dumps(par, sort_keys=True))
+        if REPLAYING:                        # re-judging a saved case: nothing is written
+            print("  violation: %s" % what)
+            chk.violations.append((what, REPLAYING))
+        else:
+            chk.violation(what, dict(payload, kind=kind, problems=J.problems[:20]))
 
 
 def do_forward_batch(chk, rt, group, rng, stats, only=None):
@@ -82,6 +89,8 @@ def run(tier, replay=None):
     ]
     stats = {"comparisons": 0, "worst_ratio": 0.0, "law_batches": 0, "projected": 0, "projection_skipped_ray_in_plane": 0}
     if replay:
+        global REPLAYING
+        REPLAYING = replay
         case = json.load(open(replay))["case"]
         if case["kind"] == "inverse":
             do_inverse_batch(chk, rt, case["records"], stats)
@@ -117,7 +126,8 @@ def run(tier, replay=None):
     t0 = time.time()
     groups = G.group_records(recs)
     for gi, group in enumerate(groups):
-        do_forward_batch(chk, rt, group, rng, stats)
+        with G.omp_threads(rt, 2):           # small batches: waking 16 threads costs more than the kernel
+            do_forward_batch(chk, rt, group, rng, stats)
         for r in group:
             p = r["par"]
             chk.case(("fwd", p["sw"], p["flip"], p["sgn"], p["zs"], p["ys"], p["pk"], p["om"]),
@@ -146,18 +156,31 @@ def run(tier, replay=None):
     chk.notes["inverse_batches"] = len(batches)
     chk.notes["replay_s"] = round(time.time() - t0, 1)
     # vacuity guards: every class of inverse case must occur, laws and projection must have been exercised
-    for k in ("inverse_valid", "inverse_blind", "inverse_toolong", "inverse_generated", "inverse_tangent"):
-        if stats.get(k, 0) < 10:
-            raise common.MachineryError("vacuity: %s = %d" % (k, stats.get(k, 0)))
-    if stats["law_batches"] < 20 or stats["projected"] < 100:
-        raise common.MachineryError("vacuity: %r" % (stats,))
-    selftest(rt, groups, list(batches.values()))
+    # (only meaningful for a run that was not cut short by violations)
+    if not chk.violations:
+        for k in ("inverse_valid", "inverse_blind", "inverse_toolong", "inverse_generated", "inverse_tangent"):
+            if stats.get(k, 0) < 10:
+                raise common.MachineryError("vacuity: %s = %d" % (k, stats.get(k, 0)))
+        if stats["law_batches"] < 20 or stats["projected"] < 100:
+            raise common.MachineryError("vacuity: %r" % (stats,))
+        selftest(rt, groups, list(batches.values()))
     return chk.finish()
 
 
 def selftest(rt=None, groups=None, batches=None):
-    if rt is None or not groups or not batches:
-        return
+    """perturbed expectations (Bragg length, projected pixel, validity flag, two-theta) must be rejected"""
+    if rt is None:
+        import sys
+        if "ImageD11" not in sys.modules:
+            common.use_shadow(common.build_shadow("normal"))
+        rt = G.Routes(numba_routes=False)
+    if not groups or not batches:
+        c = common.Check(PROP, "selftest")
+        groups = G.group_records(G.run_geometry(c, "selftest corner", "fwd_corner", workers=WORKERS, timeout=600))
+        bb = {}
+        for r in G.run_geometry(c, "selftest inverse", "inv_q", workers=WORKERS, timeout=600):
+            bb.setdefault(G.inverse_key(r), []).append(r)
+        batches = list(bb.values())
     rng = np.random.default_rng(1)
     g0 = next(g for g in groups if g[0]["par"]["t"] == [0, 0, 0] and any(g[0]["par"]["sw"][:5]))
     if not G.judge_laws(rt, G.Oracle(g0), rng).problems:
